@@ -36,9 +36,22 @@ def state_key(st: dict) -> tuple:
     return tuple(st[f] for f in FIELDS)
 
 
-def apply_to_ac(ac, st: dict) -> None:
-    """Assign a state through the public setters of AirConditioner."""
+def apply_to_ac(ac, st: dict, aliases: bool = False) -> None:
+    """Assign a state through the public setters of AirConditioner (``aliases``: eco/turbo/sleep/freeze protection through
+    their deprecated alias names eco_mode/turbo_mode/sleep_mode/freeze_protection_mode, which remain part of the interface)."""
     from msmart.device import AirConditioner as AC
+    if aliases:
+        import warnings
+        apply_to_ac(ac, st, aliases=False)
+        with warnings.catch_warnings():
+            warnings.simplefilter("ignore")
+            # first park the opposite value through the primary name, so that the alias really has to do the work
+            ac.eco, ac.turbo, ac.sleep, ac.freeze_protection = not st["eco"], not st["turbo"], not st["sleep"], not st["freeze_protection"]
+            ac.eco_mode = st["eco"]
+            ac.turbo_mode = st["turbo"]
+            ac.sleep_mode = st["sleep"]
+            ac.freeze_protection_mode = st["freeze_protection"]
+        return
     ac.power_state = st["power"]
     ac.operational_mode = AC.OperationalMode(st["mode"])
     ac.target_temperature = st["target_temperature"]
